@@ -11,7 +11,8 @@ from concurrent.futures import ThreadPoolExecutor
 ROOT = "/verif"
 args = [a for a in sys.argv[1:] if not a.startswith("--")]
 in_repo = "--in-repo" in sys.argv
-ids = args or sorted(d for d in os.listdir(f"{ROOT}/seeded") if os.path.exists(f"{ROOT}/seeded/{d}/meta.json"))
+ids = args or sorted(d for d in os.listdir(f"{ROOT}/seeded") if os.path.exists(f"{ROOT}/seeded/{d}/meta.json")
+                    and "obsolete" not in json.load(open(f"{ROOT}/seeded/{d}/meta.json")))
 
 def run_one(sid):
     d = f"{ROOT}/seeded/{sid}"
